@@ -1209,7 +1209,7 @@ int64_t evaluate_member_array_access(
         }
     } else {
         return interpreter.get_struct_member_array_element(
-            obj_name, member_name, static_cast<int>(index));
+            obj_name, member_name, Variable::index_to_int(index));
     }
 }
 
